@@ -239,6 +239,20 @@ def vec_getattr(M, interp, v, name, node):
         if name in ('filled', 'count', 'compressed') and v.kind == 'nd':
             raise AbsRaise(ExcVal('AttributeError', (f"'numpy.ndarray' object has no attribute '{name}'",)), node)
         return ModelMethod(v, name)
+    # not in the model: ask the real class whether such an attribute exists (decides AttributeError vs. bridge)
+    from . import bridge
+    if bridge.HAVE:
+        import numpy as _np
+        import pandas as _pd
+        klass = {'nd': _np.ndarray, 'ma': _np.ma.MaskedArray, 'series': _pd.Series, 'index': _pd.Index, 'dtindex': _pd.DatetimeIndex}[v.kind]
+        if hasattr(klass, name) and not name.startswith('_'):
+            attr = getattr(klass, name)
+            if callable(attr) and not isinstance(attr, property):
+                return ModelMethod(v, name)
+            try:
+                return bridge.from_real(getattr(bridge.to_real(v, interp), name))
+            except bridge.NotConcrete as e:
+                raise AnalysisError(f'attribute {name} of an array with symbolic content is not modelled ({e})', node)
     raise AbsRaise(ExcVal('AttributeError', (f"'{_tname(v)}' object has no attribute '{name}'",)), node)
 
 
